@@ -252,6 +252,8 @@ FN('parse_input', props=['C07', 'C12', 'C01'], ret='r',
        ('aux.parse_input.state_rests', 'r is Ok ==> dechunker_wf(*final(self))'),
        ('C12.copy_in_order', 'r is Ok ==> is_subseq(final(dst)@.subrange(0, r->Ok_0.1 as int), src@.subrange(0, r->Ok_0.0 as int))'),
        ('C07.one_chunk_per_call', 'r is Ok ==> one_segment(src@, final(dst)@, r->Ok_0.0 as int, r->Ok_0.1 as int, *old(self), *final(self))'),
+       ('C07.open_chunk_no_skip', '*old(self) is Chunk && r is Ok && r->Ok_0.1 == 0 ==> r->Ok_0.0 == 0 && *final(self) == *old(self)'),
+       ('C07.crlf_round', '*old(self) is CrLf && r is Ok ==> r->Ok_0.1 == 0 && ((r->Ok_0.0 == 0 && *final(self) is CrLf) || (r->Ok_0.0 == 2 && *final(self) is Size))'),
        ('C07.ended_consumes_nothing', '*old(self) is Ended ==> r == Ok::<(usize, usize), Error>((0usize, 0usize)) && *final(self) is Ended'),
    ],
    head='proof { axiom_slice_len(src); axiom_slice_len(dst); }',
@@ -266,6 +268,7 @@ FN('parse_input', props=['C07', 'C12', 'C01'], ret='r',
 ''',
               'invariant_except_break': [
                   ('aux.parse_input.trailer_transient', '!(*self is Trailer) || (spec_find_crlf(src@.subrange(pos.index_in as int, src.len() as int)) matches Some(i) && i > 0)'),
+                  ('aux.parse_input.loop.crlf_first', '*old(self) is CrLf ==> pos.index_in == 0'),
                   ('aux.parse_input.loop.no_size_after_data', 'pos.index_out > 0 ==> *self is Chunk || *self is CrLf'),
               ],
               'invariant': [
@@ -275,7 +278,8 @@ FN('parse_input', props=['C07', 'C12', 'C01'], ret='r',
                   ('aux.parse_input.loop.segment', '0 <= seg_a && seg_a + pos.index_out <= pos.index_in && src@.subrange(seg_a, seg_a + pos.index_out) == dst@.subrange(0, pos.index_out as int)'),
                   ('aux.parse_input.loop.segment_state', 'pos.index_out > 0 ==> (*old(self) is Chunk ==> seg_a == 0) && (*self is Chunk || *self is CrLf ==> seg_a + pos.index_out == pos.index_in) && (*self is Size ==> seg_a + pos.index_out + 2 == pos.index_in) && (*self is Chunk || *self is CrLf || *self is Size)'),
                   ('aux.parse_input.loop.ended', '*old(self) is Ended ==> *self is Ended && pos.index_in == 0 && pos.index_out == 0'),
-                  ('aux.parse_input.loop.nodata_yet', 'pos.index_out == 0 && *old(self) is Chunk ==> (*self is Chunk && pos.index_in == 0)'),
+                  ('aux.parse_input.loop.nodata_yet', 'pos.index_out == 0 && *old(self) is Chunk ==> (*self == *old(self) && pos.index_in == 0)'),
+                  ('aux.parse_input.loop.crlf_round', '*old(self) is CrLf ==> pos.index_out == 0 && ((pos.index_in == 0 && *self is CrLf) || (pos.index_in == 2 && *self is Size))'),
               ],
               'ensures': [('aux.parse_input.loop.exit', '!(*self is Trailer)')],
               'decreases': 'src.len() - pos.index_in, rank(*self)',
